@@ -258,6 +258,7 @@ def run(chk):
     import c15, c10
     c15.whole_streams(chk, 'connection')
     c10.relogin(chk)          # compression / cipher state of an earlier session never frames the next one
+    c12.reentrant_disconnect(chk)      # a listener that disconnects from inside a write: every queued packet is framed once
     chk.assumptions += ['zlib is library code: in the model inflate/deflate are a table computed by the harness with Python zlib (the theorems hold for every codec with inflate(deflate x) = x)',
                         'BytesIO / select / the kernel socket layer are replaced by the simulated transport: a read returns 1..n bytes or, at end of stream, none']
 
